@@ -1,7 +1,7 @@
 Require Extraction.
 Require Import ExtrOcamlBasic.
-From Herc Require Import Base.Conv Toposort.Model Pipeline.Resolve Pipeline.Deploy Pipeline.Strict.
+From Herc Require Import Base.Conv Toposort.Model Pipeline.Resolve Pipeline.Deploy Pipeline.Strict Pipeline.TwoPaths Pipeline.NameCollision.
 Extraction "c10_model.ml" conv_anchor resolve ambiguous_keys names_okb domain_okb order_ok positions_strict perm_b
   unsatisfiedb max_providers cyclicb region_of feedsb sort_items named_items
   deploy set_feature closure_names reg_okb summon
-  chain_order_ok shallow_secondb.
+  chain_order_ok shallow_secondb two_feeders_b collision_only_b.
